@@ -249,7 +249,9 @@ CHECKS = {
              "document create_file writes, for any 20-byte hash function over the 256 KiB chunks, is read back as exactly the "
              "fields it was made from, its hash input being the canonical encoding of its info dictionary) and is also tied by "
              "correspondence with SHA-1 of every chunk recomputed by the driver.",
-        note="UTF-8 validity and decimal parsing are hand models of std, tied by correspondence. SHA-1 uninterpreted (any "
+        note="'Never panics' holds for the model at every nesting depth; the implementation aborts on native stack exhaustion from some "
+             "tens of thousands of nesting levels on (known finding stack-exhaustion-on-deep-nesting, deep-nesting part, one process "
+             "per case). UTF-8 validity and decimal parsing are hand models of std, tied by correspondence. SHA-1 uninterpreted (any "
              "function producing 20 bytes). No axioms.",
         technique="Coq proof (invariants over folds, case analysis) + differential correspondence",
         design="2/C17"),
@@ -263,7 +265,8 @@ CHECKS = {
              "states; the pinned manager is refuted (blocked after 1 failure, deadlocked after 66). Tie: reply grammar + "
              "mutations; fault sequences (0..70 failures under the paused clock) through the real Session's tracker channel, "
              "comparing blocking, contacted peers and remaining candidates. Two genuine defects found and repaired.",
-        note="HTTP transport/reqwest not modelled; the retry loop of TrackerClient::run is modelled (scripted task in the harness); "
+        note="The reply parser aborts on native stack exhaustion for replies nested some tens of thousands of levels deep (known finding "
+             "stack-exhaustion-on-deep-nesting, deep-nesting part). HTTP transport/reqwest not modelled; the retry loop of TrackerClient::run is modelled (scripted task in the harness); "
              "tokio mpsc/JoinHandle semantics are a hand model. No axioms.",
         technique="Coq proof (invariant over reachable states, case analysis) + differential correspondence",
         design="2/C19"),
